@@ -234,6 +234,7 @@ func RunC07(c *Ctx, r *Report) {
 		return
 	}
 	r.Func(c.FuncName(gen))
+	c.c07Totality(r, prefix)
 	f := c.NewFA(gen)
 
 	// rule 1: offset table
@@ -532,6 +533,7 @@ func RunC08(c *Ctx, r *Report) {
 		return
 	}
 	r.Func(c.FuncName(gen))
+	c.c08Totality(r, prefix)
 	f := c.NewFA(gen)
 	rule1 := prefix + "offset-table"
 	r.Rule(rule1, "the four Child SA keys are the consecutive slices ei [0,E) ai [E,E+A) er [E+A,2E+A) ar [2E+A,2E+2A) of prf+(SK_d, nonce), with 2(E+A) octets requested, E/A from the negotiated ESP descriptors and A = 0 when integrity is absent", 7)
